@@ -4,15 +4,15 @@
 # mean "the property's own clause fails on this input" for each property
 FAIL = {
     'C02': ('shape', 'symbol'),
-    'C01': ('sem', 'no-result'),
+    'C01': ('sem', 'no-result', 'symbol'),
     'C08': ('lex', 'grammar', 'accept'),
-    'C09': ('vars', 'free', 'leak'),
-    'C03': ('sem', 'no-result'),
-    'C04': ('sem', 'no-result', 'leak'),
-    'C05': ('sem', 'no-result'),
-    'C06': ('sem', 'no-result'),
-    'C07': ('clause', 'no-result', 'rows', 'truevars'),
-    'C20': ('clause', 'shape', 'no-result', 'rows'),
+    'C09': ('vars', 'free', 'leak', 'symbol'),
+    'C03': ('sem', 'no-result', 'symbol'),
+    'C04': ('sem', 'no-result', 'leak', 'symbol'),
+    'C05': ('sem', 'no-result', 'symbol'),
+    'C06': ('sem', 'no-result', 'symbol'),
+    'C07': ('clause', 'no-result', 'rows', 'truevars', 'symbol'),
+    'C20': ('clause', 'shape', 'no-result', 'rows', 'symbol'),
     'C10': ('header', 'rows', 'truevars', 'no-result', 'accept', 'panic'),
     'C11': ('header', 'rows', 'order', 'roundtrip', 'accept', 'byname', 'panic', 'no-result', 'symbol', 'sem', 'shape'),
     'C12': ('panic',),
@@ -51,7 +51,7 @@ TEXT_RULE = {
     'evalwide': 'sizes beyond the small spaces: conjunction, disjunction, xor chains, quantifier lists, a De Morgan equivalence, reversed first-appearance order and a 2n-deep nesting over n = 32, 33, 64, 65, 70, 129 variables (thorough up to 257); counting over lists of 8, 11, 14 operands; seeded random fixed-point-free formulas of depth 4 over 20 names',
     'evalord': 'API orderings with gaps: 8 formulas x every injective assignment of ids 0..5 to every subset of <=3 of the names a,b,c,d (685 orderings), incl. formulas with up to five unlisted variables; result, vars, free_vars, names compared, and the answer is compared BY NAME with the default-order answer',
     'evalshadow': 'systematic shadowing: 7 outer binders (exists/forall/lfp/gfp on a, two-name lists, none) x 6 inner binders on the same name x 8 layouts (inner scope closed by a bracket, a list comma or an if-branch, with uses of the name before, after and outside; triple nesting; binders on absent and binder-only names), default order and an API ordering',
-    'sym': 'the NamedSymbol contract the model rests on, all 256 pairs over ids {0,1,2,7} x names {a, b, empty, non-ASCII}: == and cmp / partial_cmp decided by the id alone, equal symbols hash alike (std hasher and the FxHash of a node), nodes over equal symbols are equal, into usize is the id, Display is the name',
+    'sym': 'the NamedSymbol contract the model rests on, all 2304 pairs over 12 ids (0, 1, 2, 7, ids that coincide with 3 or 7 after truncation to 8 / 16 / 32 bits, 2^32, 2^63+2, 2^64-2, 2^64-1) x names {a, b, empty, non-ASCII}: == and cmp / partial_cmp decided by the id alone, equal symbols hash alike (std hasher and the FxHash of a node), nodes over equal symbols are equal, into usize is the id, Display is the name',
     'evalx': 'two separately parsed formulas (two environments) combined by and / or / eq / xor / implies / ite of either environment: 12 fixed pairs and seeded random pairs - the same structure under two spellings of the same ids (p,q,x / req,ack,busy / x,p,q) or unrelated formulas over overlapping ids; seven result diagrams compared',
     'evalid': 'API orderings with arbitrary ids: 8 formula templates x 6 id layouts with one id SOLVED so that the two children of one node are different diagrams with the same FxHash (the words fed to the hasher are recorded and the FxHasher replayed; kept only when the real get_hash confirms the collision; about 30 orderings, each also inside a conjunction and under a negation), plus seeded random formulas over 6 names under random listings with ids near 0, near usize::MAX, powers of two and random 64-bit values; the evaluated diagram and its conversion to BDD<usize> are compared in rank space with the model under the order-isomorphic small ids, and BY NAME with the default-order answer',
     'evallong': 'text handling beyond short inputs, tokenized and evaluated: 4095..70000 blanks / newlines / comment characters before, inside and after a formula; identifiers of 255..5000 characters; CRLF, lone CR, byte order mark, tab, form feed, NBSP, U+2028, zero-width space, combining accents, NUL; open, empty and adjacent comments; counting constants with leading zeros, signs, separators, 2^64-1 and 2^64, non-ASCII digits; nesting depth 10..200 (thorough 400) of brackets, negations, binders, lists, if-then-else',
@@ -110,9 +110,9 @@ def dbg(spec):
 
 PROPS = {
     'C02': dict(suites=[bdd(['conn', 'quant', 'count', 'fp', 'model', 'retain', 'clean', 'mixed', 'wide']), text(['sym', 'evalx', 'evalid'], exhaustive=False)]),
-    'C01': dict(suites=[text(['tok', 'parse', 'eval', 'evalfp', 'evalwide', 'evalq', 'evalshadow', 'evallong'])]),
+    'C01': dict(suites=[text(['tok', 'parse', 'eval', 'evalfp', 'evalwide', 'evalq', 'evalshadow', 'evallong', 'sym', 'evalid'])]),
     'C08': dict(suites=[text(['tok', 'parse', 'evallong'])]),
-    'C09': dict(suites=[text(['eval', 'evalwide', 'evalshadow'])]),
+    'C09': dict(suites=[text(['eval', 'evalwide', 'evalshadow', 'sym'])]),
     'C10': dict(suites=[cli(['grid', 'order', 'size', 'shadow', 'names', 'env', 'random'])]),
     'C11': dict(suites=[cli(['order', 'names', 'random']), text(['evalord', 'evalid', 'sym'])]),
     'C12': dict(suites=[cli(['robustlib', 'robustbin', 'grid', 'size']), text(['evallong'], exhaustive=False), dbg(cli(['robustlib'])), dbg(text(['evallong', 'evalc']))]),
@@ -129,12 +129,12 @@ PROPS = {
     'C16': dict(suites=[gen(['clique'])]),
     'C17': dict(suites=[gen(['sudoku'])]),
     'C18': dict(suites=[gen(['graph'])]),
-    'C03': dict(suites=[bdd(['conn', 'wide'])]),
-    'C04': dict(suites=[bdd(['quant', 'wide']), text(['evalq', 'evalfp'])]),
-    'C05': dict(suites=[bdd(['count', 'wide']), text(['evalc']), dbg(bdd(['count'])), dbg(text(['evalc']))]),
-    'C06': dict(suites=[bdd(['fp']), text(['evalfp', 'evalshadow'], exhaustive=False)]),
-    'C07': dict(suites=[bdd(['model', 'wide']), cli(['grid'])]),
-    'C20': dict(suites=[bdd(['retain', 'wide']), cli(['grid', 'env'])]),
+    'C03': dict(suites=[bdd(['conn', 'wide']), text(['sym', 'evalx', 'evalid'], exhaustive=False)]),
+    'C04': dict(suites=[bdd(['quant', 'wide']), text(['evalq', 'evalfp', 'sym'])]),
+    'C05': dict(suites=[bdd(['count', 'wide']), text(['evalc', 'sym']), dbg(bdd(['count'])), dbg(text(['evalc']))]),
+    'C06': dict(suites=[bdd(['fp']), text(['evalfp', 'evalshadow', 'sym'], exhaustive=False)]),
+    'C07': dict(suites=[bdd(['model', 'wide']), cli(['grid']), text(['sym'], exhaustive=False)]),
+    'C20': dict(suites=[bdd(['retain', 'wide']), cli(['grid', 'env']), text(['sym'], exhaustive=False)]),
 }
 
 HOOK_COMMITS = ['d9157ce']
@@ -187,7 +187,7 @@ _t('C01', 'Theorems for the whole language (all connectives and spellings via th
           'Correspondence: tokenizer, parser and evaluator of src/parser.rs against tokenize/parse/eval_f on ~680k texts per quick run (result diagrams compared structurally, variables by id after the id assignment itself is compared).',
    NOTE_TEXT)
 _t('C08', 'Theorems: the scanner satisfies the maximal-munch lexing relation Lexes for every text and that relation is functional, so the scanner output is THE tokenisation (C08_lex, C08_lex_unique); for every text that tokenizes, parse ts = Ok f iff G_formula ts f for the unambiguous '
-          'closed/open grammar (C08_parse: soundness and completeness, all 32 token kinds, optional trailing commas, right-associative operators without precedence, bodies extending right), and derivations are unique (C08_unique). '
+          'closed/open grammar (C08_parse: soundness and completeness, all 32 token kinds, optional trailing commas, right-associative operators without precedence, bodies extending right), and derivations are unique (C08_unique); the parser is onto: every syntax tree without embedded diagram is the parse of its fully bracketed print-out, parse (unparse f ++ [Eof]) = Ok f, and parser output never contains an embedded diagram (C08_print_parse, C08_parse_trees). '
           'Correspondence: all strings <=4 over a 22-character alphabet (every regex alternation), all keyword/symbol spellings pairwise, all token sequences <=3 over 36 tokens and 4 over 20, plus random and mutated texts; any accept/reject or tree difference is itself a failing input because the model verdict is the grammar verdict.',
    NOTE_TEXT)
 _t('C09', 'Theorems: var_is_free f x holds iff x has an occurrence not enclosed by a binder of x (C09_free, over the explicit occurrence list occ f), and the support of the evaluated diagram is included in the free variables (C09_support, proved semantically via independence and essentiality of support variables). '
@@ -201,7 +201,7 @@ _t('C10', 'Theorem C10_cli (end to end over the pipeline model): whenever cli pr
           'no lookup failure, i.e. no panic); the filtered table is the filter of the full table (C10_filter), the -v lines are the true rows (C10_vars). The pipeline that produces header, columns and the printed diagram (tokens -> vars -> free_vars -> eval -> retain -> model) is the Gallina function cli. '
           'Correspondence: the real binary against cli on the option grid (15 filter spellings, 3 channels, -c, -m, -b), all small orderings, random formulas/options/ordering files: header, row set, -v set.', NOTE_CLI)
 _t('C11', 'Theorem C11_text (over texts, no bound): the same formula text evaluated under ANY two orderings with pairwise distinct ids (permutations, subsets, supersets with unused names anywhere) yields diagrams that denote the same function of the NAMED variables. Proved through: tokens are a function of the final id table (classify_render), two runs differ by an id renaming that respects names (render_rename), the grammar is closed under id renaming and the parser is the grammar (C08), C11_meaning (renaming by any map with a left inverse renames the denotation). C11_file_orderings: the orderings the binary reads from a file have distinct ids. '
-          'Partial: that listed variables are ORDERED as in the file, and the -r/-o round trip, are shown by correspondence only (header order and round trip on the real binary). '
+          'C11_rank_iso: two id assignments related by a strictly increasing map (in particular sparse 64-bit ids and their ranks) yield the SAME diagram up to that renaming - by canonicity, both being reduced, ordered and equivalent - which is what lets S-text/evalid compare arbitrary ids with the model in rank space. Partial: that listed variables are ORDERED as in the file, and the -r/-o round trip, are shown by correspondence only (header order and round trip on the real binary). '
           'Correspondence: 12 formulas x all 65 orderings over {a,b,c,u} incl. supersets with unused names in every position, duplicate/punctuation/keyword files, random ordering files; header order, row set by name, -r list, and the -r/-o round trip on the real binary.', NOTE_CLI)
 _t('C12', 'Theorem C12_no_panic: for EVERY fuel, code-point classification, option set (-f, -c, -m, -b), ordering-file text and formula text, the pipeline model cli (ordering file, tokenize, parse, vars, free_vars, eval, retain, model, both table printers) never returns CliPanic, i.e. no column lookup in either printer fails on the diagram that is printed (answer, retained answer, or a model of either). Proved from: every variable of a parsed tree is an identifier token and parser output has no embedded diagram (parse_vars, by induction over the grammar); the support of the answer consists of proper free occurrences (support_fv); retain and model keep shape and shrink the support; vars is duplicate-free (pf_vars_spec); the partition theorem. Also C12_table and C12_eval (fixed-point-free formulas always evaluate). '
           'The tokenizer/parser/evaluator model returns Error (never a panic value) on every input, and the correspondence shows the implementation returns Err exactly there. Partial by nature: stack exhaustion, allocation failure, clap and I/O are run-time behaviour. '
